@@ -210,7 +210,7 @@ def gen_cases(rng, tier):
     cases += fam if tier == "thorough" else rng.sample(fam, 220)
     fam2 = list(_family2())
     cases += fam2 if tier == "thorough" else rng.sample(fam2, 200)
-    for _ in range(12000 if tier == "thorough" else 900):
+    for _ in range(12000 if tier == "thorough" else 700):
         cases.append(_rand(rng, 14))
     return cases
 
